@@ -13,7 +13,7 @@ use vcore::{Cx, Fail, Res};
 
 use crate::model::{ambient_items, flatten_pub, segs, Kv, Obs, Seg, Spec};
 use crate::oracle::{check_props, enumerate, Ctl, Seen};
-use crate::p::{build, ctxt, macro_shape_reorders, with_layers, P};
+use crate::p::{build, ctxt, macro_shape_len, macro_shape_reorders, with_layers, P};
 
 #[derive(Serialize, Deserialize, Debug, Clone)]
 pub enum Host {
@@ -72,6 +72,8 @@ pub fn check_case(c: &Case, cx: &mut Cx) -> Res {
     let mut erased = false;
     let mut hash = false;
     let mut d1_class = false;
+    let mut wide_macro = false;
+    let mut wide_macro_reorders = false;
     let mut names: Vec<&'static str> = Vec::new();
     c.spec.walk(&mut |s| {
         if !names.contains(&s.name()) {
@@ -80,7 +82,15 @@ pub fn check_case(c: &Case, cx: &mut Cx) -> Res {
         match s {
             Spec::Erased(..) => erased = true,
             Spec::Hash(..) | Spec::Frame(..) => hash = true,
-            Spec::Macro(shape, _) if macro_shape_reorders(*shape) => d1_class = true,
+            Spec::Macro(shape, _) => {
+                if macro_shape_reorders(*shape) {
+                    d1_class = true;
+                }
+                if macro_shape_len(*shape) > 16 {
+                    wide_macro = true;
+                    wide_macro_reorders |= macro_shape_reorders(*shape);
+                }
+            }
             _ => {}
         }
     });
@@ -112,6 +122,8 @@ pub fn check_case(c: &Case, cx: &mut Cx) -> Res {
     cx.class_if(hash, "hash-backed");
     cx.class_if(depth >= 2, "depth>=2");
     cx.class_if(d1_class, "macro-renamed-reorders-sort");
+    cx.class_if(wide_macro, "macro-props->16");
+    cx.class_if(wide_macro_reorders, "macro-props->16-reordering-rename");
 
     // a listed finding is stepped over by exact signature; the class it belongs to (a macro-built
     // collection whose renamed key sorts differently from its identifier) gets its own prefix so that
@@ -243,6 +255,21 @@ pub fn check_case(c: &Case, cx: &mut Cx) -> Res {
     cx.class_if(seen.unique_claim, "claims-unique");
     cx.class_if(seen.len == 0, "empty-enumeration");
     cx.class_if(seen.len >= 6, "len>=6");
+    cx.class_if(seen.len > 16, "len>16");
+    cx.class_if(seen.len > 32, "len>32");
+    cx.class_if(seen.keys > 16, "distinct-keys>16");
+    {
+        // a dedup() node whose input enumerates more than 16 entries (model side)
+        let mut wide_dedup = false;
+        c.spec.walk(&mut |s| {
+            if let Spec::Dedup(inner) = s {
+                if flatten_pub(&segs(inner)).len() > 16 {
+                    wide_dedup = true;
+                }
+            }
+        });
+        cx.class_if(wide_dedup || seen.len > 16, "dedup-over->16");
+    }
     cx.nontrivial(seen.has_dup || depth >= 2);
     Ok(())
 }
